@@ -458,6 +458,13 @@ func (rtcmHandler *Handler) GetMessage(bitStream []byte) (*Message, error) {
 
 		const timestampPosition = utils.LeaderLengthBits + header.LenMessageType + header.LenStationID
 
+		// The message must be long enough to contain the timestamp.
+		const minMessageLengthBits = header.LenMessageType + header.LenStationID + header.LenTimeStamp
+		if messageLength*8 < minMessageLengthBits {
+			message.ErrorMessage = "message is too short to contain a timestamp"
+			return message, errors.New(message.ErrorMessage)
+		}
+
 		message.Timestamp =
 			uint(utils.GetBitsAsUint64(bitStream, timestampPosition, header.LenTimeStamp))
 
